@@ -17,6 +17,7 @@ from .._exceptions import (
     ConnectionNotAvailable,
     LocalProtocolError,
     RemoteProtocolError,
+    map_exceptions,
 )
 from .._models import Origin, Request, Response
 from .._synchronization import AsyncLock, AsyncSemaphore, AsyncShieldCancellation
@@ -445,7 +446,10 @@ class AsyncHTTP2Connection(AsyncConnectionInterface):
             self._connection_error = True
             raise exc
 
-        events: list[h2.events.Event] = self._h2_state.receive_data(data)
+        # Anything that h2 objects to in the data we have been sent is the
+        # remote end's doing, whichever request happens to be reading.
+        with map_exceptions({h2.exceptions.ProtocolError: RemoteProtocolError}):
+            events: list[h2.events.Event] = self._h2_state.receive_data(data)
 
         return events
 
